@@ -1,5 +1,5 @@
 """C09 - Smith normal form: structural clauses (E6 mirroring, E2 exact division, E21 divisibility chain as loop exit condition)."""
-import e6_mirror, e2_float, e21_snfscan
+import e6_mirror, e2_float, e21_snfscan, e3_gcd
 
 LEVEL = 'other'
 EXPLANATION = ('Static analysis of yui_matrix::dense::snf on MIR: (M2) path summaries of the six wrappers prove that every row/column '
@@ -29,3 +29,5 @@ def run(ctx, rep):
     e2_float.apply(facts, rep, scope, 'C09', floor_scope=25)
     rep.rule('E21', e21_snfscan.__doc__.strip().split('\n')[0])
     e21_snfscan.run(facts, rep)
+    rep.rule('E3', e3_gcd.__doc__.strip().split('\n')[0])
+    e3_gcd.run(facts, rep)
